@@ -127,8 +127,21 @@ def _close_arr(a, b, tol):
 
 
 # ---------------------------------------------------------------- predicate
-def run_impl(logL, case):
-    """Drive nessai: returns dict of results from both implementations."""
+def _touch(state):
+    """Read every read-only accessor of the integral state (values are
+    discarded): reading must not change what the state reports later."""
+    state.effective_n_posterior_samples
+    state.log_posterior_weights
+    state.log_evidence
+    state.log_evidence_error
+
+
+def run_impl(logL, case, reads=()):
+    """Drive nessai: returns dict of results from both implementations.
+
+    reads: positions (number of increments done) at which the read-only
+    accessors of the state are queried, as a user or the sampler may do at
+    any time."""
     from nessai.evidence import _NSIntegralState
     from nessai.posterior import compute_weights
 
@@ -136,20 +149,27 @@ def run_impl(logL, case):
     N = len(logL)
     arr = case.get("nlive_arr")
     out = {}
+    reads = set(reads)
     if arr is None:
         n = int(case["nlive"])
         state = _NSIntegralState(n, track_gradients=False, expectation=exp)
-        for v in logL[: N - n]:
+        for j, v in enumerate(logL[: N - n]):
+            if j in reads and j > 0:
+                _touch(state)
             state.increment(v)
         out["logx_live"] = np.array(state.get_logx_live_points(n))
         for i, v in enumerate(logL[N - n:]):
+            if (N - n + i) in reads and (N - n + i) > 0:
+                _touch(state)
             state.increment(v, nlive=n - i)
         one_logZ, one_w = compute_weights(np.array(logL), n, expectation=exp)
     else:
         state = _NSIntegralState(
             max(1, int(arr[0])), track_gradients=False, expectation=exp
         )
-        for v, n in zip(logL, arr):
+        for j, (v, n) in enumerate(zip(logL, arr)):
+            if j in reads and j > 0:
+                _touch(state)
             state.increment(v, nlive=n)
         one_logZ, one_w = compute_weights(
             np.array(logL), np.array(arr, dtype=float), expectation=exp
@@ -157,8 +177,17 @@ def run_impl(logL, case):
     out["inc_rect"] = float(state.logZ)
     out["inc_vols"] = np.array(state.log_vols, dtype=float)
     out["inc_w"] = np.array(state.log_posterior_weights, dtype=float)
+    if reads:
+        # read, query the effective sample size, read again
+        out["ess"] = float(state.effective_n_posterior_samples)
+        out["inc_w_again"] = np.array(state.log_posterior_weights,
+                                      dtype=float)
     out["inc_logZ"] = float(state.finalise())
     out["inc_logZ_attr"] = float(state.log_evidence)
+    if reads:
+        _touch(state)
+        out["inc_w_final"] = np.array(state.log_posterior_weights,
+                                      dtype=float)
     out["one_logZ"] = float(one_logZ)
     out["one_w"] = np.array(one_w, dtype=float)
     return out
@@ -170,6 +199,30 @@ def check_case(case, use_mp=True):
     sched = schedule(case)
     with np.errstate(all="ignore"):
         r = run_impl(logL, case)
+    reads = case.get("reads") or []
+    if reads:
+        # the same history with read-only queries interleaved must report
+        # bit-identical results (reading is not an operation on the state)
+        with np.errstate(all="ignore"):
+            rr = run_impl(logL, case, reads=reads)
+        for name in ("inc_rect", "inc_logZ", "inc_logZ_attr"):
+            if rr[name] != r[name] and not (
+                    math.isnan(rr[name]) and math.isnan(r[name])):
+                raise Violation(
+                    f"reads-change-result:{name}",
+                    f"{r[name]!r} without vs {rr[name]!r} with read-only "
+                    f"queries at {reads[:5]}", case)
+        for name, ref in (("inc_w", "inc_w"), ("inc_vols", "inc_vols"),
+                          ("inc_w_again", "inc_w"), ("inc_w_final", "inc_w")):
+            if not np.array_equal(rr[name], r[ref], equal_nan=True):
+                d = np.nanmax(np.abs(np.where(
+                    np.isfinite(rr[name]) & np.isfinite(r[ref]),
+                    rr[name] - r[ref], 0.0)))
+                raise Violation(
+                    f"reads-change-result:{name}",
+                    f"max |difference| {d:.3e} between the weights reported "
+                    f"with and without read-only queries (reads at "
+                    f"{reads[:5]})", case)
     N = len(logL)
     vols = r["inc_vols"]
     # (c) volumes
@@ -349,7 +402,12 @@ def cases(draw, max_len, max_nlive, big=False):
         st.one_of(st.none(), st.floats(-1e5, 1e5), st.sampled_from(
             [1e5, -1e5, 1.0, 1e3]))
     )
+    reads = draw(st.one_of(
+        st.just([]),
+        st.lists(st.integers(0, max(1, N)), min_size=1, max_size=4),
+    ))
     return {
+        "reads": sorted(set(reads)),
         "nlive": nlive,
         "nlive_arr": arr,
         "expectation": expectation,
@@ -378,6 +436,8 @@ def classify(case):
         cl.append("range>=1e3")
     if case["shift"]:
         cl.append("shifted")
+    if case.get("reads"):
+        cl.append("interleaved-reads")
     n = case["nlive"] if case["nlive"] else 1
     nontrivial = len(logL) >= n + 1 and len(set(fin)) > 1
     return cl, nontrivial
@@ -441,7 +501,8 @@ def run(ctx):
 
 def health(ctx, stats):
     need = ["ties", "leading-inf", "offset>=1e3", "range<=1e-6",
-            "range>=1e3", "varying-nlive", "shifted", "logt", "t"]
+            "range>=1e3", "varying-nlive", "shifted", "logt", "t",
+            "interleaved-reads"]
     return [
         f"class {c} has only {stats.classes.get(c, 0)} cases"
         for c in need
